@@ -34,10 +34,42 @@ mod harnesses {
 	}
 
 	/// Rule D6 (bounded in the slice length only): the iterator chain the extractor replaces means "index and byte of the first
-	/// non-whitespace byte among the first n bytes".
+	/// byte that is not JSON whitespace among the first n bytes" (server: read_body and the WebSocket message task).
 	#[kani::proof]
 	#[kani::unwind(12)]
 	fn d6_first_non_ws_chain() {
+		const LEN: usize = 10;
+		let data: [u8; LEN] = kani::any();
+		let len: usize = kani::any();
+		kani::assume(len <= LEN);
+		let n: usize = kani::any();
+		kani::assume(n <= LEN + 1);
+		let s = &data[..len];
+		let got = s.iter().enumerate().take(n).find(|(_, byte)| !matches!(**byte, b' ' | b'\t' | b'\n' | b'\r'));
+		let is_ws = |b: u8| b == 0x20 || b == 0x09 || b == 0x0a || b == 0x0d;
+		match got {
+			Some((i, b)) => {
+				assert!(i < len && i < n && *b == s[i] && !is_ws(s[i]));
+				let mut j = 0;
+				while j < i {
+					assert!(is_ws(s[j]));
+					j += 1;
+				}
+			}
+			None => {
+				let mut j = 0;
+				while j < len && j < n {
+					assert!(is_ws(s[j]));
+					j += 1;
+				}
+			}
+		}
+	}
+
+	/// Rule D6, the same chain over `is_ascii_whitespace` (the stand-in `first_non_ascii_ws`): the form feed counts as whitespace.
+	#[kani::proof]
+	#[kani::unwind(12)]
+	fn d6_first_non_ascii_ws_chain() {
 		const LEN: usize = 10;
 		let data: [u8; LEN] = kani::any();
 		let len: usize = kani::any();
@@ -66,8 +98,8 @@ mod harnesses {
 		}
 	}
 
-	/// Rule D6, variant without `.enumerate()` (bounded in the slice length only): the byte found is the first non-whitespace
-	/// byte among the first n bytes.
+	/// Rule D6, variant without `.enumerate()` (bounded in the slice length only): the byte found is the first byte that is not
+	/// JSON whitespace among the first n bytes.
 	#[kani::proof]
 	#[kani::unwind(12)]
 	fn d6_take_find_chain() {
@@ -78,8 +110,8 @@ mod harnesses {
 		let n: usize = kani::any();
 		kani::assume(n <= LEN + 1);
 		let s = &data[..len];
-		let got = s.iter().take(n).find(|b| !b.is_ascii_whitespace());
-		let is_ws = |b: u8| b == b' ' || b == b'\t' || b == b'\n' || b == 0x0c || b == b'\r';
+		let got = s.iter().take(n).find(|byte| !matches!(**byte, b' ' | b'\t' | b'\n' | b'\r'));
+		let is_ws = |b: u8| b == 0x20 || b == 0x09 || b == 0x0a || b == 0x0d;
 		let mut j = 0;
 		let mut first: Option<u8> = None;
 		while j < len && j < n {
